@@ -292,11 +292,9 @@ func runC04(c *core.Ctx, o Options) {
 					hit = true
 				}
 				if hit {
-					root := fn
-					for root.Parent() != nil {
-						root = root.Parent()
+					for _, o := range goroutineOwners(fn, fns, 0) {
+						sites[o[0]] = append(sites[o[0]], o[1])
 					}
-					sites[root.Name()] = append(sites[root.Name()], fn.Name())
 				}
 			})
 		}
@@ -309,7 +307,7 @@ func runC04(c *core.Ctx, o Options) {
 		if fn == nil {
 			continue
 		}
-		for _, cl := range an.WithAnon(fn) {
+		for _, cl := range serveBodies(fn, fns) {
 			an.AllInstrs(cl, func(in ssa.Instruction) {
 				sel, ok := in.(*ssa.Select)
 				if !ok {
@@ -541,7 +539,7 @@ func runC04(c *core.Ctx, o Options) {
 		ps, _ := an.EnumPaths(mk, 8)
 		ok := len(ps) == 1 && len(ps[0].Results) == 1 && strings.HasPrefix(ps[0].Results[0], "simplefixgo.NewAcceptorHandler(")
 		c.Check(ok, "F6", "AcceptorHandlerFactory.MakeHandler", "returns a new handler on every call", mk.Pos(), "NewAcceptorHandler(...)", "MakeHandler does not construct a new handler per call")
-		nh := c.Func("", "NewAcceptorHandler")
+		nh := an.Delegate(c.Func("", "NewAcceptorHandler")) // the function that holds the constructor's body
 		if nh != nil {
 			chans := 0
 			an.AllInstrs(nh, func(in ssa.Instruction) {
@@ -572,4 +570,78 @@ func blockReachable(from, to *ssa.BasicBlock) bool {
 		work = append(work, x.Succs...)
 	}
 	return false
+}
+
+// goroutineOwners names the goroutine bodies that execute fn, as (top-level function, body) pairs: a function literal is its own
+// body under its enclosing top-level function; an unexported plain function of the package belongs to the bodies that call it
+// (or, where it is spawned with go, is itself a body under the spawning function); anything else is its own root.
+func goroutineOwners(fn *ssa.Function, fns []*ssa.Function, depth int) [][2]string {
+	if fn.Parent() != nil {
+		root := fn
+		for root.Parent() != nil {
+			root = root.Parent()
+		}
+		return [][2]string{{root.Name(), fn.Name()}}
+	}
+	self := [][2]string{{fn.Name(), fn.Name()}}
+	if depth > 4 || fn.Object() == nil || fn.Object().Exported() || fn.Signature.Recv() != nil {
+		return self
+	}
+	var out [][2]string
+	seen := map[[2]string]bool{}
+	escapes := false
+	for _, caller := range fns {
+		an.AllInstrs(caller, func(in ssa.Instruction) {
+			cc := an.CallOf(in)
+			for _, op := range in.Operands(nil) {
+				if op != nil && *op == ssa.Value(fn) && (cc == nil || cc.Value != ssa.Value(fn)) {
+					escapes = true
+				}
+			}
+			if cc == nil || an.StaticCallee(cc) != fn {
+				return
+			}
+			var os [][2]string
+			if _, isGo := in.(*ssa.Go); isGo {
+				root := caller
+				for root.Parent() != nil {
+					root = root.Parent()
+				}
+				os = [][2]string{{root.Name(), fn.Name()}}
+			} else {
+				os = goroutineOwners(caller, fns, depth+1)
+			}
+			for _, o := range os {
+				if !seen[o] {
+					seen[o] = true
+					out = append(out, o)
+				}
+			}
+		})
+	}
+	if escapes || len(out) == 0 {
+		return self
+	}
+	return out
+}
+
+// serveBodies lists the function literals of a serve function together with the unexported plain functions that only they execute.
+func serveBodies(fn *ssa.Function, fns []*ssa.Function) []*ssa.Function {
+	out := an.WithAnon(fn)
+	for _, h := range fns {
+		if h.Parent() != nil || h == fn || h.Pkg != fn.Pkg || len(h.Blocks) == 0 {
+			continue
+		}
+		os := goroutineOwners(h, fns, 0)
+		mine := len(os) > 0
+		for _, o := range os {
+			if o[0] != fn.Name() || o[1] == h.Name() && o[0] == h.Name() {
+				mine = false
+			}
+		}
+		if mine {
+			out = append(out, h)
+		}
+	}
+	return out
 }
